@@ -12,5 +12,6 @@ CONSTANTS
   Challenge = 0
   Precedence = 0
   MaxBlock = 12
+  Gates = {TRUE, FALSE}
   Faults = {"none"}
 INVARIANTS TypeOK RelayBeforeTimeout RelaySlotBeforeTimeoutBlock
